@@ -324,6 +324,9 @@ def replay(v):
     return check_main.generic_replay(v)
 
 def run_shard(campaign, shard, nshards, seed, tier):
+    if campaign == 'api':
+        import apiuse
+        return apiuse.run_api('C01', shard, nshards, seed, tier)
     part = Part()
     rng = random.Random('%s/%s/%s' % (seed, campaign, shard))
     quick = tier != 'thorough'
@@ -375,4 +378,6 @@ def run(ctx):
     run_sharded(ctx, 'C01', 'both_ways')
     run_sharded(ctx, 'C01', 'big')
     run_sharded(ctx, 'C01', 'joint')
-    return RULE, ASSUME
+    run_sharded(ctx, 'C01', 'api', nshards=2)
+    import apiuse
+    return RULE + apiuse.rule_text('C01'), ASSUME
